@@ -1,7 +1,7 @@
 """C18 - Navigation and metadata: links, destinations, outline, attachments, info."""
 import random, json, os, glob, math
 from fractions import Fraction
-from urllib.parse import urljoin
+from urllib.parse import urljoin, quote
 import common
 from common import zlit, slit, qlit
 
@@ -488,6 +488,10 @@ NAMES = ['x', 'a b', 'a+b', 'a&b=c', 'q?r', '50%', '(x)', "it's", 'a/b', 'a#b', 
          'élan', 'é caf é', '中文', 'ü+1', 'ñ/ñ?ñ', 'éa%b', 'Ωmega', 'ßx']
 SAME_DOC = ['doc.html', './doc.html', '../dir/doc.html', 'http://base.test/dir/doc.html', '//base.test/dir/doc.html',
             '/dir/doc.html', '/dir/../dir/doc.html']
+# a document URL that iri_to_uri has to escape, and spellings of it (raw, escaped, mixed)
+BASE2 = 'http://base.test/dir/döc é.html'
+SAME_DOC2 = ['döc é.html', 'd%C3%B6c%20%C3%A9.html', './döc%20é.html', 'http://base.test/dir/döc é.html',
+             'http://base.test/dir/d%C3%B6c%20%C3%A9.html', '//base.test/dir/döc é.html', '/dir/döc é.html']
 OTHER_DOC = ['other.html', 'http://e.test/dir/doc.html', 'doc.html?q=1', 'doc.html/', '/doc.html', 'https://base.test/dir/doc.html',
              'http://base.test/dir/doc.htm', 'mailto:a@b.test']
 
@@ -515,19 +519,20 @@ def zs(bs):
 
 
 def gen_href_case(rng):
-    base = rng.choice([BASE, BASE, BASE, None])
+    base = rng.choice([BASE, BASE, BASE2, None])
+    same = SAME_DOC2 if base == BASE2 else SAME_DOC
     r = rng.random()
     name = rng.choice(NAMES)
     frag, _ = spell_fragment(rng, name, rng.choice([0, 0.3, 0.7, 1]))
     if r < 0.04:
         return dict(base=base, href=rng.choice(['', ' ', '\t']), attr=('empty',), want=None)
     if r < 0.12:          # empty fragment
-        href = rng.choice(['#', 'doc.html#', BASE + '#', ' # '])
+        href = rng.choice(['#', same[0] + '#', same[3] + '#', ' # '])
         return dict(base=base, href=href, attr=('url', 0, ''), want=None)
     if r < 0.4:
         return dict(base=base, href=rng.choice(['', ' ', '\n']) + '#' + frag, attr=('bare', frag), want=name)
     if r < 0.8:
-        doc = rng.choice(SAME_DOC)
+        doc = rng.choice(same)
         return dict(base=base, href=doc + '#' + frag, attr=('url', 0, frag), want=name if base else None)
     i = rng.randrange(len(OTHER_DOC))
     frag = rng.choice([frag, frag, ''])
@@ -555,7 +560,9 @@ def coq_href_case(c, o):
 
 
 def stream_hrefs(run, rng, n):
-    fixed = [dict(base=BASE, href='doc.html#caf%C3%A9', attr=('url', 0, 'caf%C3%A9'), want='café'),
+    fixed = [dict(base='http://base.test/dir/döc.html', href='döc.html#x', attr=('url', 0, 'x'), want='x'),
+             dict(base='http://base.test/dir/a b.html', href='a b.html#x', attr=('url', 0, 'x'), want='x'),
+             dict(base=BASE, href='doc.html#caf%C3%A9', attr=('url', 0, 'caf%C3%A9'), want='café'),
              dict(base=BASE, href=BASE + '#café', attr=('url', 0, 'café'), want='café'),
              dict(base=BASE, href='#caf%c3%A9', attr=('bare', 'caf%c3%A9'), want='café'),
              dict(base=None, href='#a%20b', attr=('bare', 'a%20b'), want='a b')]
@@ -584,20 +591,12 @@ def stream_hrefs(run, rng, n):
                 if c['want'] is not None else 'a link elsewhere is taken for internal'),
                 {'stream': 'hrefs', 'case': c, 'impl': o}, signature='href-spelling')
             break
-    # dedicated probe: document URL that needs escaping (finding: the base URL is compared without iri_to_uri)
-    probes = [dict(base='http://base.test/dir/döc.html', href='döc.html#x'), dict(base='http://base.test/dir/a b.html', href='a b.html#x')]
-    for c, (st, o) in zip(probes, common.run_impl('impl_c18', 'hrefs', probes)):
-        if st != 'ok' or o != ['internal', 'x']:
-            run.fail('get_link_attribute(href=%r, base=%r) = %r: a reference to the document itself is not internal when '
-                     'the document URL contains characters that iri_to_uri escapes' % (c['href'], c['base'], o),
-                     {'stream': 'hrefs-probe', 'case': c, 'impl': o}, signature='selfurl-base-not-normalised')
-            break
     run.count('hrefs-direct', len(kept), [(c['base'] is None, c['attr'][0], c['href']) for c, _ in kept],
               samples=[{'case': kept[-1][0], 'impl': kept[-1][1]}])
     run.stream_info('hrefs-direct', rule='%d anchor names with reserved, non-ASCII and %% characters, each character raw or '
                     'percent-encoded with upper/lower case digits; written as bare #fragment, as 7 relative/absolute '
-                    'spellings of the document URL, as 8 other documents, with empty fragment, empty attribute, with and '
-                    'without a base URL; direct call of urls.get_link_attribute on a stub element' % len(NAMES),
+                    'spellings of the document URL (also a document URL with non-ASCII characters and a space, raw or escaped), '
+                    'as 8 other documents, with empty fragment, empty attribute, with and without a base URL; direct call of urls.get_link_attribute on a stub element' % len(NAMES),
                     internal_expected=sum(1 for c, _ in kept if c['want'] is not None),
                     percent_encoded=sum(1 for c, _ in kept if '%' in c['href']))
 
@@ -942,6 +941,8 @@ def gen_doc(rng, ascii_ids, mode=None):
         pool += ['aé', 'ü1', 'z中']
     # where the document URL comes from: the base_url argument, a <base href> element, or nowhere
     basekind = rng.choice(['arg', 'arg', 'element', 'none']) if mode == 'spellings' else rng.choice(['arg'] * 8 + ['element', 'none'])
+    docbase = BASE2 if rng.random() < (0.4 if mode == 'spellings' else 0.15) else BASE
+    same_doc = SAME_DOC2 if docbase == BASE2 else SAME_DOC
     upool = ['u%d' % i for i in range(14)]       # unique ids for table parts, floats, ...
     unext = [0]
     budget = [rng.choice([3, 8, 20, 40, 70])]
@@ -970,15 +971,15 @@ def gen_doc(rng, ascii_ids, mode=None):
                 frag = spell_fragment(rng, name, rng.choice([0, 0.3, 0.7, 1]))[0]
             doc = ''
             if basekind != 'none' and rng.random() < (0.6 if mode == 'spellings' else 0.25):
-                doc = rng.choice(SAME_DOC)               # the document itself, spelled as a URL
+                doc = rng.choice(same_doc)               # the document itself, spelled as a URL
             href, kind, target = doc + '#' + frag, 'internal', name
         elif r < 0.7 or basekind == 'none':
             href = rng.choice(['http://e.test/', 'https://e.test/a/b?q=1#f', 'mailto:a@b.test', 'http://e.test/dir/doc.html#s1'])
             kind, target = 'external', href
         elif r < 0.85:
-            href = rng.choice(['other.html', 'sub/x.html#f', '../up.html', '?q=2', '/root.html', 'doc.html#', '#',
-                               'doc.html?q=1#s1', 'other.html#s0'])
-            kind, target = 'external', urljoin(BASE, href)
+            href = rng.choice(['other.html', 'sub/x.html#f', '../up.html', '?q=2', '/root.html', same_doc[0] + '#', '#',
+                               same_doc[0] + '?q=1#s1', 'other.html#s0', 'autre é.html#s1'])
+            kind, target = 'external', quote(urljoin(docbase, href), safe="/:?#[]@!$&'()*+,;=~%")
         else:
             fn = 'mem:f%d.txt' % rng.randint(0, 3)
             if fn not in exp['files'] and rng.random() < 0.85:
@@ -1233,10 +1234,10 @@ def gen_doc(rng, ascii_ids, mode=None):
     html = '<html%s><head><meta charset=utf-8><style>%s%s</style>%s</head><body>%s</body></html>' % (
         '' if lang is None else ' lang=%s' % lang, CSS, ''.join(rules), ''.join(head), '\n'.join(body))
     if basekind == 'element':
-        html = html.replace('<meta charset=utf-8>', '<meta charset=utf-8><base href="%s">' % BASE, 1)
+        html = html.replace('<meta charset=utf-8>', '<meta charset=utf-8><base href="%s">' % docbase, 1)
     exp['mode'] = mode
     exp['basekind'] = basekind
-    return dict(html=html, files=exp['files'], base_url=BASE if basekind == 'arg' else None,
+    return dict(html=html, files=exp['files'], base_url=docbase if basekind == 'arg' else None,
                 zoom=rng.choice([1, 1, 2, 0.5])), exp
 
 
